@@ -10,6 +10,7 @@ package sched
 import (
 	"bytes"
 	"fmt"
+	"os"
 	"reflect"
 	"runtime"
 	"sort"
@@ -63,6 +64,7 @@ type S struct {
 	choose  Chooser
 	free    bool // free-run mode: points are no-ops, parked tasks are released
 	abort   bool // abort mode: every task exits (runtime.Goexit) at its next point
+	exempt  uint64 // goroutine that created the scheduler (the harness main loop): never a task
 	cur     *Task
 	wg      sync.WaitGroup
 	Steps   int
@@ -79,11 +81,14 @@ type S struct {
 
 var active atomic.Pointer[S]
 
+// Deactivate removes any scheduler left active by a previous run (start of a new simulated run).
+func Deactivate() { active.Store(nil) }
+
 // New creates a scheduler and makes it the active one. strategy: 0 non-preemptive baseline with
 // seeded deviations, 1 uniform random walk, 2 PCT-style priorities with change points.
 func New(choose Chooser, strategy int, trace func(string, ...any)) *S {
 	s := &S{byGid: map[uint64]*Task{}, locks: map[uintptr]*lockState{}, choose: choose, Trace: trace,
-		strat: strategy, changes: map[int]bool{}, LockEdges: map[string]int{}}
+		strat: strategy, changes: map[int]bool{}, LockEdges: map[string]int{}, exempt: goid()}
 	if strategy == 2 {
 		for i := 0; i < 3; i++ {
 			s.changes[1+choose(40)] = true
@@ -181,7 +186,8 @@ func (s *S) Abort() {
 		t.wake <- struct{}{}
 	}
 	s.wg.Wait()
-	active.CompareAndSwap(s, nil)
+	// the aborted scheduler stays the active one (until the next New): goroutines of the code under test that
+	// are still unwinding must keep seeing abort mode
 }
 
 func (s *S) enabled(t *Task) bool {
@@ -403,13 +409,21 @@ func current(site string) (*S, *Task) {
 		return nil, nil
 	}
 	s.mu.Lock()
-	if s.free {
+	if s.free || goid() == s.exempt {
+		// the harness main goroutine observes the system at quiescence (every task parked or blocked): it runs the
+		// original operations and must never be parked itself
 		s.mu.Unlock()
 		return nil, nil
 	}
 	if s.abort {
+		// tasks known before the abort exit here; any other goroutine (the harness main goroutine tearing the
+		// system down) runs the original operations
+		_, known := s.byGid[goid()]
 		s.mu.Unlock()
-		runtime.Goexit()
+		if known {
+			runtime.Goexit()
+		}
+		return nil, nil
 	}
 	t := s.taskForCurrent("")
 	s.mu.Unlock()
@@ -470,7 +484,11 @@ func aborting() (*S, *Task) {
 	if !s.abort {
 		return nil, nil
 	}
-	return s, s.byGid[goid()]
+	t, known := s.byGid[goid()]
+	if !known {
+		return nil, nil
+	}
+	return s, t
 }
 
 func holds(t *Task, key uintptr) bool {
@@ -715,6 +733,11 @@ func Bubble(t TestingT, f func()) (panicked string) {
 	defer func() {
 		if p := recover(); p != nil {
 			panicked = fmt.Sprint(p)
+			if os.Getenv("VERIF_DEBUG_DUMP") != "" {
+				buf := make([]byte, 1<<20)
+				buf = buf[:runtime.Stack(buf, true)]
+				fmt.Fprintf(os.Stderr, "VERIF-DEBUG goroutines at bubble panic:\n%s\n", buf)
+			}
 		}
 	}()
 	runBubble(t, f)
